@@ -240,7 +240,8 @@ func validateABCIEvidence(
 
 	// Ensure this matches the validators that are listed in the evidence. They
 	// should be ordered based on power.
-	if validators == nil && ev.ByzantineValidators != nil {
+	// NOTE: evidence decoded from protobuf carries an empty, non-nil slice when there are none
+	if validators == nil && len(ev.ByzantineValidators) != 0 {
 		return fmt.Errorf(
 			"expected nil validators from an amnesia light client attack but got %d",
 			len(ev.ByzantineValidators),
